@@ -205,7 +205,12 @@ class PatchLinkage:
 
         patch_ids = list(ref_cat.keys())
         centers = ref_cat.get_centers()
+        # a patch must enclose the objects of every catalog, measured from the
+        # centers of the reference catalog
         radii = ref_cat.get_radii()
+        for cat in other_cats:
+            cat_radii = cat.get_radii() + centers.distance(cat.get_centers())
+            radii = AngularDistances(np.maximum(radii.data, cat_radii.data))
 
         patch_links = dict()
         for patch_id, patch_center, patch_radius in zip(patch_ids, centers, radii):
